@@ -48,7 +48,31 @@ func (p Pattern) Glob(cb func(PathInfo) bool) bool {
 		}
 	}
 
+	// With more than one **, the same path can be reached with the first
+	// slash in different **'s (for instance a/a with **a**). Report it once.
+	if countStarStar(segs) > 1 {
+		seen := make(map[string]struct{})
+		origCb := cb
+		cb = func(info PathInfo) bool {
+			if _, ok := seen[info.Path]; ok {
+				return true
+			}
+			seen[info.Path] = struct{}{}
+			return origCb(info)
+		}
+	}
+
 	return glob(segs, dir, cb)
+}
+
+func countStarStar(segs []Segment) int {
+	n := 0
+	for _, seg := range segs {
+		if IsWild1(seg, StarStar) {
+			n++
+		}
+	}
+	return n
 }
 
 // isLetter returns true if the byte is an ASCII letter.
